@@ -135,4 +135,47 @@ example : target ⟨0, 0, 0, 32, 4, "auth", 60000⟩ ⟨"0.0.0.1", 5, 2, 0, 2⟩
 example : target ⟨0, 0, 0, 32, 4, "auth", 60000⟩ ⟨"10.0.0.9", 5, 2, 0, 1⟩ = ("10.0.0.9", 5) := by decide
 example : (plan ⟨30000, 0, 0, 32, 4, "auth", 1⟩ ⟨"u", none, false⟩ ⟨.fail 0x80010002, .fail 0⟩).outcome = .error (.rmc 0x80010002) := by decide
 
+/-! ## sequences of logins through one client (and one Settings object)
+
+The property speaks about every login, not about the first login of every client object. A `BackEndClient`
+carries only what its constructor stored; `session` threads that object through a list of logins. -/
+
+/-- a login leaves the client object as it found it -/
+theorem login_leaves_client (c : Client) (st : Step) : (c.login st).1 = c := login_client_unchanged c st
+
+/-- **history independence**: the k-th login of a session — after other accounts, guest logins, failed attempts,
+    logins with or without extra data — is planned exactly as the same login through a fresh client -/
+theorem login_history_independent (cfg : Cfg) (steps : List Step) (k : Nat) :
+    (session ⟨cfg⟩ steps)[k]? = steps[k]?.map (fun st => (session ⟨cfg⟩ [st]).head!) := by
+  rw [session_getElem?]; cases steps[k]? <;> simp [session, Client.login]
+
+/-- in particular whatever came before (`pre`) does not matter for the login that follows -/
+theorem login_after_any_prefix (cfg : Cfg) (pre pre' : List Step) (st : Step) :
+    (session ⟨cfg⟩ (pre ++ [st]))[pre.length]? = (session ⟨cfg⟩ (pre' ++ [st]))[pre'.length]? := by
+  rw [session_after_prefix, session_after_prefix]
+
+/-- so all the single-login theorems above apply to every step of a session, e.g.: a step whose first call fails
+    yields no connection whatever the earlier steps achieved -/
+theorem session_step_first_fail (cfg : Cfg) (pre : List Step) (st : Step) (code : Nat) (h : st.script.first = .fail code) :
+    (session ⟨cfg⟩ (pre ++ [st]))[pre.length]? = some ⟨[firstCall cfg st.args], .none, .error (.rmc code)⟩ := by
+  rw [session_after_prefix, plan_first_fail cfg st.args st.script code h]
+
+/-- and a step that ends in a connection passed every gate *itself* (its own response, its own key, its own tickets) -/
+theorem session_step_connect (cfg : Cfg) (steps : List Step) (k : Nat) (p : Plan) (c : Connect)
+    (hp : (session ⟨cfg⟩ steps)[k]? = some p) (h : p.outcome = .ok c) :
+    ∃ st, steps[k]? = some st ∧ p = plan cfg st.args st.script ∧ c.pid = (match st.script.first with | .resp r => r.pid | .fail _ => 0) := by
+  rw [session_getElem?] at hp
+  cases hs : steps[k]? with
+  | none => simp [hs] at hp
+  | some st =>
+    simp [hs] at hp
+    subst hp
+    refine ⟨st, rfl, rfl, ?_⟩
+    obtain ⟨r, ku, key, t, tf, hf, _, _, _, _, hc, _⟩ := plan_connect_inv cfg st.args st.script c h
+    simp [hf, hc]
+
+example : (session ⟨⟨30000, 0, 0, 32, 4, "auth", 1⟩⟩
+    [⟨⟨"u", none, false⟩, ⟨.fail 0x80010002, .fail 0⟩⟩, ⟨guestArgs, ⟨.fail 0x80030065, .fail 0⟩⟩]).map (·.outcome) =
+    [.error (.rmc 0x80010002), .error (.rmc 0x80030065)] := by decide
+
 end Nx.C17
